@@ -15,6 +15,7 @@
 #include "rtrlib/pfx/trie/trie-pfx.c"
 #include "rtrlib/spki/hashtable/ht-spkitable.c"
 
+#define M_MAXREC 700 /* bulk responses */
 #include "common/cachesim.h"
 #include "common/envx.h"
 #include "rtrlib/lib/alloc_utils.h"
@@ -528,8 +529,32 @@ static void fault_tables(void)
 }
 
 /* ------------------------------------------------------------------ synchronisation under allocation failure */
-enum { R_DELTA_OK, R_DELTA_FAIL, R_RELOAD_OK, R_RELOAD_FAIL, R_RELOAD_EMPTY, R__N };
-static const char *R_NAME[R__N] = {"delta ok", "delta failing at its last PDU (rollback)", "reload with a new set", "reload failing (duplicate)", "reload with the empty set"};
+enum { R_DELTA_OK, R_DELTA_FAIL, R_RELOAD_OK, R_RELOAD_FAIL, R_RELOAD_EMPTY, R_DELTA_BULK, R_DELTA_BULK_FAIL, R_RELOAD_BULK, R__N };
+static const char *R_NAME[R__N] = {"delta ok", "delta failing at its last PDU (rollback)", "reload with a new set", "reload failing (duplicate)", "reload with the empty set",
+				   "delta of 3 x 101 records (PDU stores grow)", "delta of 3 x 101 records failing at its last PDU (rollback)",
+				   "reload with 3 x 101 records"};
+
+/* numbered records outside the universe: 101 per family, one more than the step by which the PDU stores grow */
+#define BULK_N 101
+static void put_bulk(struct bytes *b)
+{
+	for (int i = 0; i < BULK_N; i++)
+		pdu_ipv4(b, 1, 1, 24, 24, 0x0b000000u + ((uint32_t)i << 8), 65100 + i);
+	for (int i = 0; i < BULK_N; i++) {
+		uint32_t a[4] = {0x20010db8, (uint32_t)(0x1000 + i) << 16, 0, 0};
+
+		pdu_ipv6(b, 1, 1, 48, 64, a, 65100 + i);
+	}
+	for (int i = 0; i < BULK_N; i++) {
+		uint8_t ski[SKI_SIZE], spki[SPKI_SIZE];
+
+		memset(ski, 0xf0, sizeof(ski));
+		ski[19] = (uint8_t)i;
+		memset(spki, 0x42, sizeof(spki));
+		spki[0] = (uint8_t)i;
+		pdu_router_key(b, 1, 1, ski, 65100 + i, spki);
+	}
+}
 
 static int recv_empty(size_t want, time_t timeout)
 {
@@ -542,7 +567,7 @@ static int recv_empty(size_t want, time_t timeout)
 static int do_sync(int kind)
 {
 	struct bytes b = {0};
-	bool reload = kind >= R_RELOAD_OK;
+	bool reload = (kind >= R_RELOAD_OK && kind <= R_RELOAD_EMPTY) || kind == R_RELOAD_BULK;
 	int rc;
 
 	env_reset();
@@ -580,6 +605,14 @@ static int do_sync(int kind)
 		cache_put_record(&b, 1, 2, 1);
 		break;
 	case R_RELOAD_EMPTY:
+		break;
+	case R_DELTA_BULK:
+	case R_RELOAD_BULK:
+		put_bulk(&b);
+		break;
+	case R_DELTA_BULK_FAIL:
+		put_bulk(&b);
+		cache_put_record(&b, 1, U_NPFX + 0, 1); /* duplicate key: 3 x 101 records are rolled back */
 		break;
 	}
 	pdu_eod(&b, 1, SESSION, 6, 3600, 600, 7200);
